@@ -122,6 +122,10 @@ func (w *world) construct(cfg int) {
 			{Name: "target", DeviceID: target, Address: ap("10.0.0.7:54321"), Doors: []string{"A", "B", "C", "D"}, Protocol: "tcp"},
 		}
 		w.routes = map[uint32]routeT{target: {"SendTCP", "10.0.0.7:54321"}, other: {"BroadcastTo", "255.255.255.255:60000"}}
+	case 4:
+		// no controllers configured at all: everything is broadcast, DeviceList is empty - and stays so
+		w.devices = nil
+		w.routes = map[uint32]routeT{target: {"BroadcastTo", "255.255.255.255:60000"}, other: {"BroadcastTo", "255.255.255.255:60000"}}
 	case 3:
 		// (storage probe only) the same controller listed more than once - first with door names, then with
 		// its address, then complete - next to another one: whichever entry the client goes by, it keeps a
@@ -215,7 +219,7 @@ func (w *world) flagList() []string {
 }
 
 var events = []string{
-	"construct-0", "construct-1", "construct-2",
+	"construct-0", "construct-1", "construct-2", "construct-4",
 	"mutate-caller-address", "mutate-caller-protocol", "mutate-caller-id", "mutate-caller-doors", "truncate-caller-slice",
 	"device-list", "mutate-device-list",
 	"call-GetDevice", "call-GetCards-other", "call-PutCard", "call-SetTimeProfile", "call-AddTask", "call-ActivateKeypads", "call-GetStatus", "call-GetTimeProfile", "call-GetCardByID", "call-GetListener", "call-SetAddress", "call-SetListener",
@@ -225,7 +229,7 @@ var events = []string{
 
 func (w *world) apply(ev string) {
 	switch ev {
-	case "construct-0", "construct-1", "construct-2":
+	case "construct-0", "construct-1", "construct-2", "construct-4":
 		w.construct(int(ev[len(ev)-1] - '0'))
 	case "mutate-caller-address":
 		if len(w.devices) > 0 {
@@ -299,6 +303,13 @@ func (w *world) apply(ev string) {
 			}
 			delete(w.list, target)
 			w.list[12345] = uhppote.Device{DeviceID: 12345}
+			// entries added under the serial numbers the calls use (target: removed above and put back
+			// with another address; other: not configured in some configurations) change nothing either
+			for _, sn := range []uint32{target, other} {
+				if _, ok := w.list[sn]; !ok {
+					w.list[sn] = uhppote.Device{Name: "added by the caller", DeviceID: sn, Address: types.ControllerAddrFrom(netip.MustParseAddr("172.16.0.11"), 3333), Protocol: "tcp"}
+				}
+			}
 			w.flags["caller-list"] = true
 		}
 	case "call-GetDevice":
@@ -514,7 +525,7 @@ func main() {
 	// every history starts with a construct event (nothing else is enabled before)
 	type job struct{ first, second int }
 	jobs := []job{}
-	for f := 0; f < 3; f++ {
+	for f := 0; f < len(events) && strings.HasPrefix(events[f], "construct-"); f++ {
 		for s := 0; s < len(events); s++ {
 			jobs = append(jobs, job{f, s})
 		}
